@@ -62,7 +62,11 @@ def check_string(acc, src, origin):
     if exc is not None:
         acc.extra['strict_failures'] += 1
         return
-    out = str(soup)
+    try:
+        out = str(soup)
+    except Exception as e:      # noqa: serialising a parsed tree must not fail
+        acc.violation('serialise-raises', {'src': src, 'origin': origin}, src, egram.exc_repr(e), size=len(src))
+        return
     if out == src:
         acc.ok(hash(src), cls='identical')
     elif align_c08(src, out):
